@@ -103,25 +103,40 @@ def to_T(v, akind=None, flags=False, _stack=()):
     if isinstance(v, (dict, list, tuple)):
         if id(v) in _stack: return '<cycle>'
         _stack = _stack + (id(v),)
+    foreign = bool(flags) and isinstance(v, TrackedValue) and not bound(v, flags)     # a wrapper that notifies somebody else
     if isinstance(v, dict):
-        return {'k': 'dict', 'w': bound(v, flags), 'items': [[k, to_T(x, None, flags, _stack)] for k, x in v.items()]}
+        return {'k': 'fdict' if foreign else 'dict', 'w': bound(v, flags), 'items': [[k, to_T(x, None, flags, _stack)] for k, x in v.items()]}
     if isinstance(v, list):
+        if foreign and akind is None and not isinstance(v, TrackedArray):
+            return {'k': 'flist', 'w': False, 'items': [['', to_T(x, None, flags, _stack)] for x in v]}
         return {'k': akind or 'list', 'w': bound(v, flags), 'items': [['', to_T(x, None, flags, _stack)] for x in v]}
     if isinstance(v, tuple):
         return {'k': 'tup', 'w': False, 'items': [['', to_T(x, None, flags, _stack)] for x in v]}
     return v
 
+class LiveT(object):
+    """a value of the session handed over by reference, already encoded with its flags (ours / foreign) for the model"""
+    def __init__(self, t): self.t = t
+
+def to_T_raw(v):
+    """fresh literal -> T, with referenced session values spliced in as they are (the model's `make` re-binds them)"""
+    if isinstance(v, LiveT): return v.t
+    if isinstance(v, dict): return {'k': 'dict', 'w': False, 'items': [[k, to_T_raw(x)] for k, x in v.items()]}
+    if isinstance(v, list): return {'k': 'list', 'w': False, 'items': [['', to_T_raw(x)] for x in v]}
+    if isinstance(v, tuple): return {'k': 'tup', 'w': False, 'items': [['', to_T_raw(x)] for x in v]}
+    return v
+
 def strip_keys(t):
     """model lists carry the unused key component; normalise for comparison"""
     if isinstance(t, dict):
-        return {'k': t['k'], 'w': t['w'], 'items': [[k if t['k'] == 'dict' else '', strip_keys(c)] for k, c in t['items']]}
+        return {'k': t['k'], 'w': t['w'], 'items': [[k if t['k'] in ('dict', 'fdict') else '', strip_keys(c)] for k, c in t['items']]}
     return t
 
 def sort_T(t):
     """order of object keys is not part of the JSON document in the database"""
     if isinstance(t, dict):
         items = [[k, sort_T(c)] for k, c in t['items']]
-        return {'k': t['k'], 'w': t['w'], 'items': sorted(items, key=lambda p: p[0]) if t['k'] == 'dict' else items}
+        return {'k': t['k'], 'w': t['w'], 'items': sorted(items, key=lambda p: p[0]) if t['k'] in ('dict', 'fdict') else items}
     return t
 
 PATH_LIMIT = 48
@@ -320,7 +335,7 @@ def model_mut(c, target_before):
     """the driver encoding of the call (computed before the call; `sort` needs the outcome permutation)"""
     n = c['n']; m = {'n': n}
     if c.get('boom') is not None or c.get('bad') is not None: return None     # an argument that raises midway: outside the model
-    raw = lambda v: to_T(dec(v), None, False)
+    raw = lambda v: to_T_raw(dec(v))
     if c['t'] == 'lmut':
         if n in ('setitem', 'insert'): m.update(i=c['i'], v=raw(c['v']))
         elif n in ('setslice',): m.update(a=c['a'], b=c['b'], k=MODEL_KIND[c['k']], vs=[raw(v) for v in c['vs']])
@@ -481,8 +496,10 @@ def execute(env, attr, init, prog, created=False, source=None):
                 if reals is None: continue
                 plains = {k: untracked(v) for k, v in reals.items()}
                 as_plain = lambda ref: copy.deepcopy(plains[json.dumps(ref)])      # Pony copies what is handed in (make): so does the mirror
-                RESOLVE[0] = as_plain
+                owner = (st['e'], getattr(E, attr))
+                RESOLVE[0] = (lambda ref: LiveT(to_T(reals[json.dumps(ref)], None, owner))) if akind is None else as_plain
                 mm = model_mut(c, y)
+                RESOLVE[0] = as_plain
                 before_m = canon(y); old_items = list(y) if isinstance(y, list) else None
                 rerr = merr = None
                 RESOLVE[0] = lambda ref: reals[json.dumps(ref)]
@@ -577,7 +594,14 @@ def execute(env, attr, init, prog, created=False, source=None):
                     st['mirror'] = newval
                     check_mirror(idx)
                     if res.model_valid:
-                        res.model_ops.append({'t': 'assign', 'v': to_T(newval, akind, False)})
+                        if akind is None and isinstance(v, dict) and '$ref' in v and same is None:
+                            mv = to_T(reals[json.dumps(v['$ref'])], None, (st['e'], getattr(E, attr)))      # live: ours / foreign
+                        elif akind is None and same is None:
+                            RESOLVE[0] = lambda ref: LiveT(to_T(reals[json.dumps(ref)], None, (st['e'], getattr(E, attr))))
+                            mv = to_T_raw(dec(v)); RESOLVE[0] = None
+                        else:
+                            mv = to_T(newval, akind, False)
+                        res.model_ops.append({'t': 'assign', 'v': mv})
                         res.snaps.append((len(res.model_ops) - 1, snap(None), idx))
                 others_clean(idx)
                 continue
@@ -939,6 +963,9 @@ def compare_model(ctx, batch, env=None, facts=None):
             ctx.divergence('driver rejected the program', {'attr': attr, 'init': init, 'program': prog}, model=out['driver_error']); continue
         states = out['states']
         for mo in res.model_ops:
+            js = json.dumps(mo)
+            if '"flist"' in js or '"fdict"' in js: ctx.count('model-op with a wrapper of another object / attribute (re-bound by the model)')
+            elif mo['t'] in ('lmut', 'dmut', 'assign') and '"w": true' in js.split('"m"')[-1] and mo['t'] != 'assign': ctx.count('model-op with an alias of the same value as argument')
             ctx.count('model-op:%s%s' % (mo['t'], ('.' + mo['m']['n']) if 'm' in mo else ''))
         for mi, s, idx in res.snaps:
             m = states[mi]
@@ -984,14 +1011,14 @@ def classify_methods(base, sample, battery):
 
 def check_tables(ctx):
     facts = gen_tracked.introspect()
-    ctx.extra['tracked_table'] = {k: facts[k] for k in ('listOv', 'dictOv', 'arrOv', 'tupleMode', 'iterUnwrapped', 'notifyOnError', 'other')}
+    ctx.extra['tracked_table'] = {k: facts[k] for k in ('listOv', 'dictOv', 'arrOv', 'tupleMode', 'iterUnwrapped', 'notifyOnError', 'rebinds', 'assignRebinds', 'other')}
     if facts['errors']:
         ctx.divergence('probing the Tracked classes raised', facts['errors'])
     if not ctx.driver.ok:
         ctx.note('driver unavailable: table checks skipped'); return facts, None
     t = ctx.driver('C28', [{'op': 'tables'}])[0]
     # (1) the table compiled into the Lean build is the table of the classes as they are now
-    for k in ('listOv', 'dictOv', 'arrOv', 'listNotify', 'dictNotify', 'arrNotify', 'tupleMode', 'iterUnwrapped', 'notifyOnError'):
+    for k in ('listOv', 'dictOv', 'arrOv', 'listNotify', 'dictNotify', 'arrNotify', 'tupleMode', 'iterUnwrapped', 'notifyOnError', 'rebinds', 'assignRebinds'):
         ctx.case(['table', k], kind='table:fresh-vs-compiled')
         if facts[k] != t[k]:
             ctx.divergence('Gen/TrackedTable.lean (compiled) differs from the classes as they are now: %s' % k, k, model=t[k], impl=facts[k])
